@@ -1,0 +1,7 @@
+//go:build verif
+
+package auth
+
+// C09TwosComplement exposes twosComplement to the verification harness (property C09).
+// Like the original it works in place and returns its argument.
+func C09TwosComplement(p []byte) []byte { return twosComplement(p) }
